@@ -98,12 +98,52 @@ def _cost_from_output(h, p, hh, cn2):
             return
         for end in range(start + 1, N - (L - g - 1) + 1):
             idx = np.arange(start, end)
-            if abs(p[idx].sum() - cn2[g]) > 1e-12 or hh[g] not in h[idx]:
+            if abs(p[idx].sum() - cn2[g]) > 1e-9 * p.sum() or hh[g] not in h[idx]:
                 continue
             t = idx[np.where(h[idx] == hh[g])[0][0]]
             rec(end, g + 1, acc + float((p[idx] * np.abs(h[idx] - h[t])).sum()))
     rec(0, 0, 0.0)
     return best[0]
+
+
+def _group_min(h, p, idx):
+    return min(float((p[idx] * np.abs(h[idx] - h[t])).sum()) for t in idx)
+
+
+def check_duplicate_heights(pc):
+    """profiles in which two layers share an altitude (dome + ground layer at 0 m, two instruments merged on one grid): the clause
+    'cost no worse than the equal split' with the cost recomputed from the returned layers (spec/ProfileComp.tla: G, EqualSplit)"""
+    bad = []
+    n = 0
+    saved = np.random.get_state()
+    try:
+        g_ = np.random.default_rng(2718)
+        extra = []
+        for _ in range(24):
+            nl = int(g_.integers(11, 16))
+            extra.append((np.sort(g_.integers(0, 40, size=nl)).astype(float) * 1000.0, np.round(g_.uniform(0.05, 1.0, nl), 2) * 1e-13))
+        for h, p in [(np.array([0.0, 0.0, 500.0, 1000.0, 2000.0, 2000.0, 4000.0, 8000.0, 8000.0, 12000.0]), np.array([5.0, 3.0, 1.0, 1.0, 2.0, 1.0, 1.0, 0.5, 1.5, 0.5])),
+                     (np.array([0.0, 0.0, 0.0, 3000.0, 3000.0, 9000.0, 9000.0, 15000.0]), np.array([4.0, 1.0, 2.0, 1.0, 3.0, 1.0, 1.0, 2.0])),
+                     (np.array([0.0, 100.0, 100.0, 100.0, 5000.0, 5000.0, 10000.0, 10000.0, 16000.0]), np.array([1.0, 2.0, 3.0, 1.0, 1.0, 2.0, 1.0, 1.0, 1.0]))] + extra:
+            N = len(h)
+            for L in (2, 3, 4, 5):
+                eq = [0] + [(k * N) // L + 1 for k in range(1, L)] + [N]
+                eq_cost = sum(_group_min(h, p, np.arange(eq[g], eq[g + 1])) for g in range(L))
+                for sd in range(4):
+                    np.random.seed(100 + sd)
+                    out = pc.optimal_grouping(3, L, h.copy(), p.copy())
+                    hh, cc = np.asarray(out[0], float), np.asarray(out[1], float)
+                    n += 1
+                    if hh.shape != (L,) or abs(cc.sum() - p.sum()) > 1e-9 * p.sum() or np.any(cc < 0):
+                        bad.append(("optimal_grouping:exactly-L:duplicate-heights", dict(L=L, heights=hh.tolist(), cn2=cc.tolist())))
+                        return bad, n
+                    cost = _cost_from_output(h, p, hh, cc)
+                    if cost is None or cost > eq_cost * (1 + 1e-12) + 1e-12:
+                        bad.append(("optimal_grouping:no-worse-than-equal-split:duplicate-heights", dict(L=L, cost=cost, equal_split=eq_cost, heights=hh.tolist(), cn2=cc.tolist())))
+                        return bad, n
+    finally:
+        np.random.set_state(saved)
+    return bad, n
 
 
 def laws_el(h, p, L, out, w=None):
@@ -150,6 +190,13 @@ def check_el(pc, c):
             if b2:
                 bad.append((b2[0][0] + ":strength-scale", dict(b2[0][1], scale=sc_)))
                 break
+    if not bad:
+        # calm layers (wind speed exactly zero) are layers: they pull their slab's wind moment down
+        wz = w.copy()
+        wz[::2] = 0.0
+        b2 = laws_el(h, p, c["L"], pc.equivalent_layers(h.copy(), p.copy(), c["L"], w=wz.copy()), w=wz)
+        if b2:
+            bad.append((b2[0][0] + ":layers-without-wind", b2[0][1]))
     if not bad and len(h) >= 3:
         # the order in which the layers are listed (top-down tables, unsorted concatenations) is not part of the profile
         perm = np.argsort(np.sin(1.0 + 5.0 * np.arange(len(h))))
@@ -375,6 +422,10 @@ def run(run):
                     run.drift("optimal_grouping:global-seed-result", dict(seed=1000 + s))
                 if key not in table:
                     run.drift("optimal_grouping:restart-outcome-outside-model", dict(drawn=drawn))
+            badd, nd = check_duplicate_heights(pc)
+            run.traces += nd
+            for key, detail in badd:
+                run.violation(key, detail, dict(kind="duplicates"))
             check_gctm.n_random = 80 if run.tier == "quick" else 800
             bad, ng = check_gctm(pc, rng)
             for key, detail in bad:
